@@ -17,7 +17,7 @@ use swc_core::common::{errors::HANDLER, sync::Lrc, Globals, SourceMap, GLOBALS};
 use swc_vue_jsx_visitor::Options;
 
 pub const WORKER_STACK: usize = 64 << 20;
-pub const SOLO_STEP_CAP: u32 = 500_000;
+pub const SOLO_STEP_CAP: u32 = 2_000_000;
 pub const SOLO_SITES_KEPT: usize = 8_000;
 
 #[derive(Clone, Copy, PartialEq, Eq, Debug)]
